@@ -217,6 +217,16 @@ EXPORT void vec_znx_normalize_base2k_ref(const MODULE* module,                  
 ) {
   const uint64_t nn = module->nn;
 
+  // no output limb: nothing to write
+  if (res_size == 0) return;
+  // no input limb: the input is zero, and so is the result
+  if (a_size == 0) {
+    for (uint64_t i = 0; i < res_size; ++i) {
+      znx_zero_i64_ref(nn, res + i * res_sl);
+    }
+    return;
+  }
+
   // use MSB limb of res for carry propagation
   int64_t* cout = (int64_t*)tmp_space;
   int64_t* cin = 0x0;
